@@ -163,7 +163,7 @@ func (e *Engine) evalString(v Value, m map[string]uint64) string {
 		for _, el := range sliceElems(v) {
 			parts = append(parts, e.evalString(el, m))
 		}
-		return strings.Join(parts, "\x1f")
+		return strings.Join(parts, ",")
 	}
 	return fmt.Sprint(v)
 }
